@@ -928,6 +928,9 @@ func writeEvidence(cfg checkCfg, seed uint64, st *Stats, batches int, wall float
 		"cases_generated":     st.Cases,
 		"invalid_cases":       st.Invalid,
 		"batches":             batches,
+		"prng_values_used":    batches,
+		"prng_values_per_hour": int64(float64(batches) / wall * 3600),
+		"prng_derivation":     "batch i uses splitmix(VERIF_SEED, i); every choice of a batch (generated cases, schedules, fault points, reader chunking, simulated clock) derives from that one value",
 		"nontrivial_runs":     st.NonTrivial,
 		"steps":               st.Steps,
 		"sim_time_s":          float64(st.SimTimeNs) / 1e9,
